@@ -131,8 +131,13 @@ class Plan:
     def success(self):
         if self.fail is None:
             return True
-        if self.fail == 'status200':
-            return None          # HTTPStatus raised by the responder: "successful"? not fixed by the statement
+        if self.fail == 'redirect':
+            return False
+        if self.fail.startswith('status'):
+            # the responder bails out by raising HTTPStatus: with an error / redirect status that is not a
+            # successful exchange by any reading; with a 2xx status the statement does not fix it
+            code = int(self.fail[6:9])
+            return None if 200 <= code < 300 else False
         return False
 
 
@@ -151,6 +156,12 @@ PLANS = [
     Plan(allow='GET, DELETE', status=204),
     Plan(allow='POST', preset=[(M.ACAO, '@origin')]),
     Plan(allow=None, preset=[(M.ACAO, OTHER), (M.ACAC, 'true')]),
+    # Allow advertised, then the handler bails out with HTTPStatus (error / redirect status)
+    Plan(allow='GET', fail='status403'),
+    Plan(allow=None, fail='status401hdr'),
+    Plan(allow='GET, POST', fail='status503'),
+    Plan(allow='GET', fail='redirect'),
+    Plan(allow='GET', fail='status204'),
 ]
 REG = {i: p for i, p in enumerate(PLANS)}
 
@@ -174,6 +185,11 @@ def apply_plan(req, resp):
         raise RuntimeError('responder failed')
     if plan.fail == 'status200':
         raise falcon.HTTPStatus(falcon.HTTP_200, headers={'Allow': plan.allow or 'GET'})
+    if plan.fail == 'redirect':
+        raise falcon.HTTPFound('/elsewhere')
+    if plan.fail and plan.fail.startswith('status'):
+        hdr = {'Allow': 'GET, POST'} if plan.fail.endswith('hdr') else None
+        raise falcon.HTTPStatus(int(plan.fail[6:9]), headers=hdr)
 
 
 # ---------------------------------------------------------------- application under test
@@ -240,7 +256,7 @@ async def sink_a(req, resp, **kw):
     apply_plan(req, resp)
 
 
-GATES = ('na', 'forbidden', 'err', 'status')
+GATES = ('na', 'forbidden', 'err', 'status', 'sdeny')
 
 
 def _gate(kind):
@@ -253,6 +269,8 @@ def _gate(kind):
         raise falcon.HTTPError(falcon.HTTP_409, title='gate', headers={'Allow': 'GET, POST'})
     if kind == 'status':
         raise falcon.HTTPStatus(falcon.HTTP_200, headers={'Allow': 'GET'})
+    if kind == 'sdeny':
+        raise falcon.HTTPStatus(falcon.HTTP_403, headers={'Allow': 'GET, POST'})
 
 
 def _other_resource(req, resp, resource):
@@ -478,7 +496,7 @@ def is_known_acac(kind, detail):
 
 
 def check_exchange(rec, bench, fw, ctx, app, cfg, policy, target, shape, origin, origin_name='Origin', plan_spec=None,
-                   base_k=None, extra=None):
+                   base_k=None, extra=None, got_pre=None):
     method, acrm, acrh = shape
     success = target.success(method)
     live = True
@@ -487,7 +505,7 @@ def check_exchange(rec, bench, fw, ctx, app, cfg, policy, target, shape, origin,
         live = False
     ex = M.Exchange(origin, method, acrm, acrh, success, live=live, allow_expected=target.allow_expected)
     base, base_bad = bench.base(fw, base_k or base_kind(ctx), target, shape, origin, origin_name)
-    got, got_bad = run_one(fw, app, target, shape, origin, origin_name)
+    got, got_bad = got_pre or run_one(fw, app, target, shape, origin, origin_name)
     witness = {'fw': fw, 'ctx': ctx, 'config': cfg, 'target': target.name, 'path': target.path, 'query': target.query,
                'shape': list(shape), 'origin': origin, 'origin_name': origin_name, 'plan': plan_spec}
     if extra:
@@ -502,7 +520,7 @@ def check_exchange(rec, bench, fw, ctx, app, cfg, policy, target, shape, origin,
     if success is True and not (200 <= (base[0] or 0) < 400):
         rec.count('model.success-mismatch')
         rec.note('target %s %s expected to succeed, baseline status %r' % (target.name, method, base[0]))
-    if success is False and (200 <= (base[0] or 0) < 400):
+    if success is False and (200 <= (base[0] or 0) < 300):
         rec.count('model.success-mismatch')
         rec.note('target %s %s expected to fail, baseline status %r' % (target.name, method, base[0]))
     findings, cells = M.judge(policy, ex, base, got)
@@ -519,6 +537,12 @@ def check_exchange(rec, bench, fw, ctx, app, cfg, policy, target, shape, origin,
             rec.count('pf.refused-expected')
             if M.ac_items(base[1]):
                 rec.count('pf.refused-with-preset')
+    if ex.preflight and policy.allowed(origin) and success is False and M.values(base[1], M.ALLOW) \
+            and target.plan is not None and target.plan.fail and target.plan.fail.startswith(('status', 'redirect')):
+        rec.count('pf.failed-with-allow.httpstatus.' + fw)
+    if ex.preflight and policy.allowed(origin) and success is False and M.values(base[1], M.ALLOW) \
+            and target.name.endswith('gate-sdeny'):
+        rec.count('pf.failed-with-allow.httpstatus-mw.' + fw)
     if ex.preflight and policy.allowed(origin) and success is False and M.values(base[1], M.ALLOW):
         stage = ('mw-request' if target.name.startswith(('qgate', 'deny')) else
                  'mw-resource' if target.name.startswith('rgate') else 'responder')
@@ -609,8 +633,8 @@ def make_policy(cfg):
 
 
 KEY_TARGETS = ('auto', 'plan0', 'plan1', 'plan5')
-REDUCED_TARGETS = ('auto', 'plan0', 'plan1', 'sink4', 'static', 'plan7', 'unrouted')
-QUICK_SINKS = ('sink0', 'sink1', 'sink4', 'sink5', 'sink7', 'sink12')
+REDUCED_TARGETS = ('auto', 'plan0', 'plan1', 'sink4', 'static', 'plan7', 'unrouted', 'plan13', 'sink14')
+QUICK_SINKS = ('sink0', 'sink1', 'sink4', 'sink5', 'sink7', 'sink12', 'sink13', 'sink14', 'sink16')
 
 
 def table_for(rec, targets, with_other, level, salt):
@@ -895,7 +919,127 @@ def history_guard(rec, bench, desc):
                    dstate, desc, i + 1)
 
 
-HISTORY_KINDS = {'reconfig': history_reconfig, 'alias': history_alias, 'guard': history_guard}
+class PausingResponse(falcon.Response):
+    """A custom response_type (documented App option) whose header operations are preemption points: the harness
+    lets a second request run through the same app while the first one is paused inside one of them - the
+    single-threaded, deterministic equivalent of two requests overlapping on a threaded WSGI server."""
+
+    hook = None
+
+    def _tick(self, op):
+        h = PausingResponse.hook
+        if h is not None:
+            h(op)
+
+    def set_header(self, name, value):
+        self._tick('set_header')
+        return super().set_header(name, value)
+
+    def set_headers(self, headers):
+        self._tick('set_headers')
+        return super().set_headers(headers)
+
+    def append_header(self, name, value):
+        self._tick('append_header')
+        return super().append_header(name, value)
+
+    def delete_header(self, name):
+        self._tick('delete_header')
+        return super().delete_header(name)
+
+    def get_header(self, name, default=None):
+        self._tick('get_header')
+        return super().get_header(name, default=default)
+
+
+OVERLAP_CONFIGS = [
+    [('str', '*'), ('none', None), ('str', 'X-One')],
+    [('set', [OA, OB]), ('set', [OA]), ('none', None)],
+    [('str', '*'), ('str', '*'), ('list', ['X-One', 'X-Two'])],
+]
+# (target name, shape, origin)
+OVERLAP_REQUESTS = [
+    ('auto', ('OPTIONS', 'GET', None), OA),
+    ('auto2', ('OPTIONS', 'DELETE', 'X-Custom'), OB),
+    ('plan0', ('OPTIONS', 'PUT', 'content-type, Authorization'), OA),
+    ('plan1', ('OPTIONS', 'GET', None), OA),                 # refused preflight
+    ('static', ('OPTIONS', 'GET', 'Range'), OA),
+    ('auto', ('GET', None, None), OB),
+    ('auto', ('OPTIONS', 'GET', None), 'https://evil.test'),
+    ('plan4', ('OPTIONS', 'GET', None), OA),                 # responder pre-sets its own grant
+    ('auto', ('GET', None, None), None),
+]
+
+
+def history_overlap(rec, bench, desc):
+    """Two requests overlap in one WSGI app: request A is paused before its k-th response-header operation (every k),
+    request B runs completely, A resumes.  Each response is judged on its own by the usual oracle.
+
+    desc: config (forms), a / b = indices into OVERLAP_REQUESTS, ticks = None (every k) or a list of k."""
+    cfg = tuple(_norm_spec(x) for x in desc['config'])
+    policy = make_policy(cfg)
+    by_name = {t.name: t for t in all_targets()}
+    ta, sa, oa = OVERLAP_REQUESTS[desc['a']]
+    tb, sb, ob = OVERLAP_REQUESTS[desc['b']]
+    ta, tb, sa, sb = by_name[ta], by_name[tb], tuple(sa), tuple(sb)
+    try:
+        cors = make_cors(cfg)
+        app = falcon.App(middleware=[cors], response_type=PausingResponse)
+        app.add_route('/auto', AutoW())
+        app.add_route('/auto2/{ident}', Auto2W())
+        app.add_route('/plan', PlanW())
+        app.add_static_route('/static', bench.static_dir)
+    except Exception as e:  # noqa
+        rec.violation('legal-configuration-rejected', {'history': desc, 'exc': repr(e)})
+        return
+    state = {'n': 0, 'k': None, 'depth': 0, 'b': None}
+
+    def hook(op):
+        if state['depth']:
+            return
+        i = state['n']
+        state['n'] += 1
+        if i == state['k']:
+            state['depth'] += 1
+            try:
+                state['b'] = run_one('wsgi', app, tb, sb, ob)
+            finally:
+                state['depth'] -= 1
+
+    def run_a(k):
+        state.update(n=0, k=k, b=None)
+        PausingResponse.hook = hook
+        try:
+            return run_one('wsgi', app, ta, sa, oa)
+        finally:
+            PausingResponse.hook = None
+
+    run_a(None)
+    total = state['n']
+    rec.count('hist.overlap.pause-points', total)
+    ticks = desc.get('ticks')
+    for k in (range(total) if ticks is None else ticks):
+        got_a = run_a(k)
+        got_b = state['b']
+        d = dict(desc, ticks=[k])
+        for who, t, shape, origin, got in (('a', ta, sa, oa, got_a), ('b', tb, sb, ob, got_b)):
+            if got is None:
+                continue
+            check_exchange(rec, bench, 'wsgi', 'history:overlap', app, cfg, policy, t, shape, origin,
+                           plan_spec=t.plan.spec() if t.plan else None, base_k='none',
+                           extra={'history': d, 'judged': who}, got_pre=got)
+            rec.count('hist.exchanges')
+            rec.count('hist.overlap.judged-' + who)
+        if got_b is not None:
+            rec.count('hist.overlap.interleavings')
+            pa = M.Exchange(oa, sa[0], sa[1], sa[2], True).preflight and policy.allowed(oa)
+            pb = M.Exchange(ob, sb[0], sb[1], sb[2], True).preflight and policy.allowed(ob)
+            if pa and pb:
+                rec.count('hist.overlap.two-preflights')
+
+
+HISTORY_KINDS = {'reconfig': history_reconfig, 'alias': history_alias, 'guard': history_guard,
+                 'overlap': history_overlap}
 
 
 def history_descs():
@@ -950,6 +1094,12 @@ def history_descs():
             for then in (['empty-list'], ['none'], ['empty-tuple'], ['other'], ['other-list'],
                          ['empty-list', 'other', 'none']):
                 out.append({'kind': 'guard', 'initial': initial, 'refused': refused, 'then': then})
+    # -- two overlapping requests in one threaded-style WSGI app
+    for ci, cfg in enumerate(OVERLAP_CONFIGS):
+        for a in range(len(OVERLAP_REQUESTS)):
+            for b in range(len(OVERLAP_REQUESTS)):
+                if a != b and (ci == 0 or (a + b + ci) % 2 == 0):
+                    out.append({'kind': 'overlap', 'config': cfg, 'a': a, 'b': b, 'ticks': None})
     return out
 
 
@@ -1004,7 +1154,8 @@ def rand_form(rng, items, allow_none=False, allow_star=True):
 
 def rand_plan(rng):
     allow = rng.choice([None, None, 'GET', 'GET, POST', 'DELETE, GET, PATCH', 'get', 'GET,POST'])
-    fail = rng.choice([None, None, None, None, '403', '405allow', '500', 'status200'])
+    fail = rng.choice([None, None, None, None, None, '403', '405allow', '500', 'status200', 'status403', 'status401hdr',
+                       'redirect', 'status503'])
     preset = []
     r = rng.random()
     if r < 0.15:
@@ -1097,7 +1248,8 @@ def run(rec):
                 'unrouted, other-middleware short-circuit/denial) x WSGI/ASGI x middleware contexts; plus random '
                 'configurations/histories; plus configuration histories (attribute reconfiguration on a running instance and '
                 'in a subclass initialiser, caller-owned collections mutated after construction, refused add_middleware '
-                'followed by further add_middleware calls) each followed by a reduced request table. non-trivial = the request carries an Origin header; distinct by '
+                'followed by further add_middleware calls) each followed by a reduced request table, and pairs of '
+                'overlapping WSGI requests (A paused before each of its response-header operations while B runs). non-trivial = the request carries an Origin header; distinct by '
                 '(framework, context, configuration, target, request shape, origin)'
                 % (len(AO_FORMS), len(AC_FORMS), len(EH_FORMS), len(REQUEST_ORIGINS), len(SHAPES), len(PLANS)))
     rec.assumptions = [
@@ -1105,8 +1257,11 @@ def run(rec):
         'origins are opaque case-sensitive strings; the illegal header "Origin: *" is not generated',
         'a responder that pre-sets Allow-Credentials without Allow-Origin is not generated',
         'whether ordinary grants stay on a FAILED preflight exchange is left open (only approval is forbidden)',
-        'HTTPStatus raised by an OPTIONS responder: success undetermined, only origin/credential cells judged',
+        'HTTPStatus with a 2xx status raised by an OPTIONS responder: success undetermined, only origin/credential cells '
+        'judged; HTTPStatus with a 3xx/4xx/5xx status (incl. redirects) raised by responder/sink/middleware: a failed exchange',
         'twin app without the CORS component is the source of "what the responder produced"',
+        'overlapping requests are modelled in one thread through a custom response_type whose header operations are '
+        'the preemption points (B runs completely while A is paused); WSGI only - the ASGI CORS hook has no await',
         '"the configuration" = the value of the public attributes allow_origins / allow_credentials / expose_headers at '
         'request time; the constructor snapshots its arguments into them, so later mutation of a collection the caller '
         'passed does not change the configuration, an assignment to a public attribute (normalised form: "*" or a '
@@ -1157,9 +1312,13 @@ def run(rec):
         ('hist.alias.mutated-list', 60), ('hist.alias.late-added-origin', 40), ('hist.alias.late-removed-origin', 30),
         ('hist.alias.late-added-credential', 10),
         ('hist.guard', 36), ('hist.guard.refused', 72), ('hist.guard.reprepared', 36),
+        ('hist.overlap', 100), ('hist.overlap.interleavings', 500), ('hist.overlap.two-preflights', 150),
+        ('hist.overlap.judged-a', 500), ('hist.overlap.judged-b', 500),
     ] + [('tgt.%sgate-%s' % (st, g), 30) for st in 'qr' for g in GATES] + \
             [('pf.failed-with-allow.%s.%s' % (st, fw), 500) for st in ('mw-request', 'mw-resource', 'responder')
              for fw in ('wsgi', 'asgi')] + \
+            [('pf.failed-with-allow.httpstatus.' + fw, 500) for fw in ('wsgi', 'asgi')] + \
+            [('pf.failed-with-allow.httpstatus-mw.' + fw, 100) for fw in ('wsgi', 'asgi')] + \
             [('ctx.' + c, 8000) for c in CONTEXTS_ALONE] + [('ctx.' + c, 2000) for c in CONTEXTS_OTHER] + \
             [('ctx.' + c, 1000) for c in CONTEXTS_ENABLE]:
         rec.floor(name, n)
